@@ -489,11 +489,21 @@ func TestC02(t *testing.T) {
 		// the engine behind a types.HttpServer listening itself: HTTP/1.1, HTTP/2 (TLS) and HTTP/3 (QUIC) on loopback
 		netLanes(r, r.N(4, 64))
 	}
-	r.Rule("PRNG payload lists (1-4 carriers of 1-12 packets: text/binary/empty/unicode/escape-heavy messages, noop, heartbeat, close) submitted by a reference-codec client as v4 payloads, v3 string / binary / base64 payloads, JSONP form bodies, WebSocket frames (v3/v4, base64 or binary) and WebTransport frames; oracle: the server's 'message' and 'data' events equal the submitted message packets up to the first close packet (order, bytes, kind, once), every POST answered 200 ok, nothing delivered after close; distinct = form + packet-shape signature")
+	r.Rule("PRNG payload lists (1-4 carriers of 1-12 packets: text/binary/empty/unicode/escape-heavy messages, noop, heartbeat, close) submitted by a reference-codec client as v4 payloads, v3 string / binary / base64 payloads, JSONP form bodies, WebSocket frames (v3/v4, base64 or binary) and WebTransport frames; WebSocket/WebTransport victims of both revisions next to a neighbour that keeps sending frames the parser refuses (with trailing bytes); oracle: the server's 'message' and 'data' events equal the submitted message packets up to the first close packet (order, bytes, kind, once), every POST answered 200 ok, nothing delivered after close; distinct = form + packet-shape signature")
 	r.Assume("revision-4 polling text never contains U+001E (no escaping exists); a JSONP payload never contains a backslash immediately followed by a real newline (the reference client's escaping cannot represent it)")
 	r.Assume("the v3 binary (XHR2) form is only used for payloads that contain a binary packet, as conformant clients do; known parser-dependency defects are exercised in dedicated lanes")
 	if r.Lane == 1%r.Lanes {
 		quicMessages(r, 2, r.N(24, 960))
+	}
+	if r.Lane == 0 {
+		for k := 0; k < r.N(24, 1600); k++ {
+			key, msg, rounds := runC02Neighbour(r.CaseRand(22, k), r)
+			r.Case(fmt.Sprintf("neighbour/%d", k%7), rounds > 0)
+			r.Obs("rounds_next_to_a_misbehaving_neighbour", int64(rounds))
+			if key != "" {
+				r.Violation(key, msg, map[string]any{"lane": "victim sessions next to a neighbour sending refused frames", "case": k, "seed": r.Seed})
+			}
+		}
 	}
 	if r.Lane == 2%r.Lanes {
 		for k := 0; k < r.N(8, 400); k++ {
@@ -573,4 +583,114 @@ func TestC02(t *testing.T) {
 			}
 		}
 	}
+}
+
+// runC02Neighbour: well-behaved WebSocket and WebTransport sessions next to a misbehaving
+// neighbour on the same server.  Round after round a fresh hostile connection sends one frame the
+// parser refuses - with bytes after the point where decoding stops - and is closed for it; after
+// each one every victim submits a message.  What one connection sent must never show up in (or
+// disturb) what another session's application receives.
+func runC02Neighbour(rng *rand.Rand, r *rep.Report) (key, msg string, rounds int) {
+	rig.Bubble(r.T(), func() {
+		so := &config.ServerOptions{}
+		so.SetAllowEIO3(true)
+		so.SetTransports(types.NewSet("polling", "websocket", "webtransport"))
+		so.SetPingInterval(20 * time.Second)
+		w := rig.NewWorld(rig.Options{Server: so})
+		defer w.Finish()
+		type victim struct {
+			cl   *rig.Client
+			sid  string
+			sent []expMsg
+		}
+		var vs []*victim
+		for _, cfg := range []rig.ClientCfg{{Rev: 4, Transport: "websocket"}, {Rev: 4, Transport: "webtransport"}, {Rev: 3, Transport: "websocket"}, {Rev: 4, Transport: "websocket", B64: true}} {
+			cfg.NoAutoPong = true
+			n := len(w.SocketIDs())
+			cl, err := w.Connect(cfg)
+			rig.Wait()
+			if err != nil || len(w.SocketIDs()) != n+1 {
+				key, msg = "c02-handshake-failed", fmt.Sprint(err)
+				return
+			}
+			cl.StartReader()
+			vs = append(vs, &victim{cl: cl, sid: cl.Sid})
+		}
+		// warm-up: every victim has sent a few frames of both kinds
+		for k := 0; k < 3; k++ {
+			for _, v := range vs {
+				m := expMsg{[]byte(fmt.Sprintf("warm-%d", k)), k%2 == 1 && !v.cl.Cfg.B64 && v.cl.Cfg.Rev == 4}
+				v.cl.Send(refcodec.Packet{Type: refcodec.Message, Data: m.data, Binary: m.binary})
+				v.sent = append(v.sent, m)
+			}
+			time.Sleep(time.Millisecond)
+		}
+		rig.Wait()
+		hostileFrames := []struct {
+			bin  bool
+			data string
+		}{
+			{false, "?4foreign|"}, {false, "94foreign-text|"}, {false, "b!!!!not-base64!!!!|tail"}, {true, "\x09\x04foreign-binary|"}, {false, "x"}, {false, "44444444444444444444|"},
+			{true, "\xff\xfe\xfdforeign|"}, {false, "ééé 4foreign-unicode|"},
+		}
+		for round := 0; round < 8; round++ {
+			kind := []string{"websocket", "webtransport"}[rng.IntN(2)]
+			h, err := w.Connect(rig.ClientCfg{Rev: 4, Transport: kind, NoAutoPong: true})
+			if err != nil {
+				key, msg = "c02-handshake-failed", "hostile neighbour: "+err.Error()
+				return
+			}
+			f := hostileFrames[rng.IntN(len(hostileFrames))]
+			for k := 1 + rng.IntN(3); k > 0; k-- {
+				if kind == "websocket" {
+					h.WSWriteRaw(f.bin, []byte(f.data))
+				} else {
+					h.WTWriteRaw(f.bin, []byte(f.data))
+				}
+			}
+			time.Sleep(time.Millisecond)
+			rig.Wait()
+			for _, v := range vs {
+				bin := rng.IntN(2) == 0 && !v.cl.Cfg.B64 && v.cl.Cfg.Rev == 4
+				m := expMsg{[]byte(fmt.Sprintf("hello-%d-%s", round, strings.Repeat("v", rng.IntN(40)))), bin}
+				if err := v.cl.Send(refcodec.Packet{Type: refcodec.Message, Data: m.data, Binary: m.binary}); err != nil {
+					key, msg = "c02-frame-write-failed", err.Error()
+					return
+				}
+				v.sent = append(v.sent, m)
+			}
+			time.Sleep(time.Millisecond)
+			rig.Wait()
+			h.Stop()
+			rounds++
+		}
+		time.Sleep(20 * time.Millisecond)
+		rig.Wait()
+		for vi, v := range vs {
+			evs := w.Tap.Of(v.sid, "message")
+			for i, e := range evs {
+				if i >= len(v.sent) || e.Str != string(v.sent[i].data) || e.Bin != v.sent[i].binary {
+					want := "(nothing)"
+					if i < len(v.sent) {
+						want = fmt.Sprintf("%.40q binary=%v", v.sent[i].data, v.sent[i].binary)
+					}
+					key, msg = "c02-message-mismatch:neighbour", fmt.Sprintf("victim %d (%s, rev %d): message event #%d is %.60q binary=%v, submitted %s - after a neighbouring connection had sent a frame the parser refuses", vi, v.cl.Cfg.Transport, v.cl.Cfg.Rev, i, e.Str, e.Bin, want)
+					return
+				}
+			}
+			if len(evs) != len(v.sent) {
+				s := w.SocketByID(v.sid)
+				st := "gone"
+				if s != nil {
+					st = s.ReadyState()
+				}
+				key, msg = "c02-message-not-delivered:neighbour", fmt.Sprintf("victim %d (%s, rev %d): %d of %d submitted messages delivered; session %s - after a neighbouring connection had sent frames the parser refuses", vi, v.cl.Cfg.Transport, v.cl.Cfg.Rev, len(evs), len(v.sent), st)
+				return
+			}
+		}
+		for _, v := range vs {
+			v.cl.Stop()
+		}
+	})
+	return
 }
